@@ -76,19 +76,32 @@ fn filters_for(wsconst: &str) -> Vec<Box<dyn SentenceFilter>> {
 
 type Tok = (String, usize, usize, usize);
 
-fn stream(tk: &mut VaporettoTokenizer, text: &str) -> Result<Vec<Tok>, String> {
+/// `consumer`: what the caller does with the token between two advance() calls, the way Tantivy's
+/// token filters (LowerCaser, AsciiFoldingFilter, Stemmer) do through token_mut():
+/// 0 nothing, 1 empties the text, 2 lengthens it, 3 replaces it by a shorter multi-byte string.
+fn stream_with(tk: &mut VaporettoTokenizer, text: &str, consumer: u8) -> Result<Vec<Tok>, String> {
     guard(|| {
         let mut st = tk.token_stream(text);
         let mut out = vec![];
         while st.advance() {
             let t = st.token();
             out.push((t.text.clone(), t.offset_from, t.offset_to, t.position));
+            match consumer {
+                1 => st.token_mut().text.clear(),
+                2 => st.token_mut().text.push_str("xé"),
+                3 => st.token_mut().text = "é".to_string(),
+                _ => {}
+            }
             if out.len() > 1000 {
                 panic!("token stream does not terminate");
             }
         }
         out
     })
+}
+
+fn stream(tk: &mut VaporettoTokenizer, text: &str) -> Result<Vec<Tok>, String> {
+    stream_with(tk, text, 0)
 }
 
 /// Tokens the core pipeline dictates (None when the pipeline rejects the text).
@@ -133,6 +146,17 @@ fn check_stream(tk: &mut VaporettoTokenizer, pred: &Predictor, filters: &[Box<dy
     }
     if pos != text.len() {
         return Some(("stream-tiling".into(), format!("tokens end at byte {pos} of {} ({text:?})", text.len())));
+    }
+    // a consumer that rewrites token.text in place (as Tantivy's token filters do) sees the same tokens
+    for consumer in 1..=3u8 {
+        match stream_with(tk, text, consumer) {
+            Err(p) => return Some(("stream-consumer-panic".into(), format!("token_stream({text:?}) panicked when the consumer rewrites token.text (mode {consumer}): {p}"))),
+            Ok(g) => {
+                if g != got {
+                    return Some(("stream-consumer".into(), format!("text {text:?}: a consumer rewriting token.text (mode {consumer}) sees {g:?} instead of {got:?}")));
+                }
+            }
+        }
     }
     if text.is_empty() {
         return if got.is_empty() { None } else { Some(("stream-empty".into(), format!("empty text produced {got:?}"))) };
